@@ -1,9 +1,12 @@
 // c07: equality is an equivalence relation and hash keys respect it.
 //
-// G: a pool of values built for collisions (pool.go).  D: the laws checked directly on the
-// implementation on all pairs and triples of the pool, hash lookup and Unique against the
-// equality-based reference (direct.go).  M: the observed hash keys, the observed Equals answers of
-// all ordered pairs, lookups and Unique results as Gallina terms for coq/Corr/CorrC07.v.
+// G: a pool of values built for collisions, every container/Timestamp/Binary/Regexp also made by other
+// construction routes (pool.go, routes.go), and hashes made from arrays that repeat keys (fromarray.go).
+// D: the laws checked directly on the implementation on all pairs and triples of the pool, hash lookup and
+// Unique against the equality-based reference, every Hash against its own entries, every container against
+// the values derived from it (direct.go).  M: the observed hash keys, the observed Equals answers of all
+// ordered pairs, lookups and Unique results, and the entries / lookups / Equals answers of the hashes made
+// from arrays (pre-built key index) as Gallina terms for coq/Corr/CorrC07.v.
 package main
 
 import (
@@ -21,7 +24,8 @@ func main() {
 	res := lib.NewResult("C07")
 	res.Rule = "a pair of pool values is non-trivial when the two values are built from different descriptions and are equal or of the same " +
 		"top-level kind (so that the comparison goes into the structure); a lookup is non-trivial when the hash holds a key equal to the probe; " +
-		"a Unique input is non-trivial when it holds two equal values; distinct = distinct description texts"
+		"a Unique input is non-trivial when it holds two equal values; a pool hash made by a construction route other than WrapHash is a non-trivial own-entries case; " +
+		"a from-array case is non-trivial when the array repeats a key, each of its probes that is found is a non-trivial lookup; distinct = distinct description texts"
 	pcore.Do(func(c px.Context) {
 		if cfg.Replay != "" {
 			replay(c, cfg, res)
